@@ -45,7 +45,7 @@ PROPERTIES = {
         ],
     },
     "C03": {
-        "modules": C05_MODULES + ["contracts.c08_temporaries", "contracts.c08_cleanup", "contracts.c03_lowering", "contracts.c03_condselect", "contracts.c04_reset", "contracts.c04_wrappers", "contracts.c02_assembler", "contracts.c13_types", "contracts.c06_stmts", "contracts.c02_frontend", "contracts.c03_decl", "contracts.c03_refvisit", "contracts.c13_refspec", "contracts.c03_out", "contracts.c10_frontend", "contracts.c03_match", "contracts.c02_replace", "contracts.c03_for", "contracts.c13_alias", "contracts.c03_with", "contracts.c03_if", "contracts.c13_views"],
+        "modules": C05_MODULES + ["contracts.c08_temporaries", "contracts.c08_cleanup", "contracts.c03_lowering", "contracts.c03_condselect", "contracts.c04_reset", "contracts.c04_wrappers", "contracts.c02_assembler", "contracts.c13_types", "contracts.c06_stmts", "contracts.c02_frontend", "contracts.c03_decl", "contracts.c03_refvisit", "contracts.c13_refspec", "contracts.c03_out", "contracts.c10_frontend", "contracts.c03_match", "contracts.c02_replace", "contracts.c03_for", "contracts.c13_alias", "contracts.c03_with", "contracts.c03_if", "contracts.c13_views", "contracts.c03_attr"],
         "level": "proof",
         "explanation": "the statement is decided per lowering step, each proved from the real source: (1) the setter replacements of Signal/Variable/Temporary (<<=, .next, ^=, .push, @=, .value) accept exactly the documented target kinds and produce the assignment mode of the operator (C05 setter contracts); (2) IrGenerator._apply_impl lowers an assignment to exactly one SignalAssignment / SignalPush / VariableAssignment per open block according to mode, target kind and context kind (temporaries: immediate in sequential, continuous in concurrent contexts); (3) after an if/else execution continues in exactly the end blocks of both branches (25 x 2 arrangements of how branches end, incl. returns and state transitions), the If node being placed before its branches; (4) ir.Sequential._pushed_resettable_signals gives every pushed root -- also noreset roots and roots pushed only through a slice -- its default at the start of each step (reset_pushed), per event for arbitrary prior sets; (5) the process bodies built by std.sequential execute reset_pushed and then the user step exactly when trigger and step condition hold; (6) cleanup_bool_cast only replaces intermediates whose source is an intermediate, so a bool() taken before a later variable update keeps the old value. Session 5: `if` tests are the boolean cast of the tested value (c03_if); `with` blocks call __exit__ once on every path that leaves them (c03_with); the subject of a match and the iterable of a for-loop / comprehension are evaluated exactly once, in front of the selection (c03_match, c03_for); chained comparisons evaluate the middle operand once; the hoisted always expression is a separate driver (c04_reset, c07_drivers).",
         "assumptions": COMMON_ASSUME + [
@@ -233,7 +233,7 @@ PROPERTIES = {
         ],
     },
     "C08": {
-        "modules": ["contracts.core_models", "contracts.c08_temporaries", "contracts.c08_cleanup", "contracts.c03_refvisit", "contracts.c12_actuals", "contracts.c02_assembler", "contracts.c07_always", "contracts.c03_if"],
+        "modules": ["contracts.core_models", "contracts.c08_temporaries", "contracts.c08_cleanup", "contracts.c03_refvisit", "contracts.c12_actuals", "contracts.c02_assembler", "contracts.c07_always", "contracts.c03_if", "contracts.c08_merged"],
         "level": "proof",
         "explanation": "the definite-assignment analysis of compiler-generated intermediates (detect_uninitialized_temporaries / search_invalid_temporaries) is proved sound against the textbook definite-assignment semantics of if / case (with and without default) / sequence by structural induction: sidecar loop invariants for the statement loop and the case-branch loop, the function's own contract as induction hypothesis for recursive calls, sets of object identities as z3 sets; every read (direct or through a reference path) is shown to reach the check; cleanup_unused is proved to remove only assignments whose root is read nowhere; StatemachineContext._check_temporaries is proved to accept a state only if the first access to every intermediate is a write; case subjects and choices are checked together with the run-time indices of their reference paths, inline-code results are definitions, event-guarded blocks are conditional; the test of every `if` is a boolean cast without reference path (c03_if); convert_sequential replaces every temporary of an always expression by a signal (c07_always).",
         "assumptions": COMMON_ASSUME + [
